@@ -62,6 +62,9 @@ def obligations(ctx):
     output_forms(ctx)
     param_update_keys(ctx)
     text_size_bounds(ctx)
+    # mint = multiasset<nonZeroInt64>: the builder hands out a mint field only without zero quantities (shared with C14)
+    from obl.c14 import mint_builder_amounts
+    mint_builder_amounts(ctx, parts=("build",), name="c03_e2_mint_builder_build_refuses_zero")
 
 
 # ---------------------------------------------------------------- struct-level forms against a table written from the Conway CDDL
